@@ -30,7 +30,7 @@ from .c01 import _prep_dedup, _short
 
 def node_kinds():
     import pytato as pt
-    m = pt.make_placeholder("m", (3, 3), np.float64)
+    m = _m()
     c = pt.make_placeholder("c", (2, 3, 3), np.float64)
     return {
         "elementwise": lambda: m * 2 + 1,
@@ -58,6 +58,12 @@ def consumptions():
         "next-to-a-stored-consumer": ("inner", lambda t: {"o": (t * 2).tagged(ImplStored()) + t}),
         "deep-and-shallow": ("inner", lambda t: {"o": pt.sin(pt.sin(t)) + t}),
         "two-outputs": ("inner", lambda t: {"oa": t * 2, "ob": t + 1}),
+        # consumed as argument(s) of a loopy call (a computed argument is stored for the call)
+        "loopy-call-argument": ("loopy", lambda t: {"o": _axpy(t, _m())}),
+        "two-arguments-of-one-loopy-call": ("loopy", lambda t: {"o": _axpy(t, t)}),
+        "arguments-of-two-loopy-calls": ("loopy", lambda t: {"o": _axpy(t, _m()) + _axpy(_m() - 7, t)}),
+        "argument-of-a-call-on-the-result-of-a-call": ("loopy", lambda t: {"o": _axpy(_axpy(t, t), t)}),
+        "loopy-call-argument-and-plain-consumer": ("loopy", lambda t: {"o": _axpy(t, _m()) + t}),
         "output-only": ("output", lambda t: {"oa": t}),
         "output-and-consumer": ("output", lambda t: {"oa": t, "ob": t + 1}),
         "output-and-two-consumers": ("output", lambda t: {"oa": t, "ob": t + 1, "oc": t * t.T}),
@@ -65,7 +71,34 @@ def consumptions():
     }
 
 
-CONTROL = {"inner": "once", "output": "output-only"}
+CONTROL = {"inner": "once", "output": "output-only", "loopy": "loopy-call-argument"}
+
+
+_M = []
+
+
+def _m():
+    """THE placeholder m (one object: call_loopy's own checks refuse equal-but-distinct inputs)"""
+    import pytato as pt
+    if not _M:
+        _M.append(pt.make_placeholder("m", (3, 3), np.float64))
+    return _M[0]
+
+
+_KNL = []
+
+
+def _axpy(x, z):
+    """y = x + 2 z through a loopy call"""
+    import loopy as lp
+    from pytato.loopy import call_loopy
+    if not _KNL:
+        _KNL.append(lp.make_kernel(
+            "{[i, j]: 0<=i<3 and 0<=j<3}", "y[i, j] = x[i, j] + 2*z[i, j]",
+            [lp.GlobalArg("x", dtype=np.float64, shape=(3, 3)), lp.GlobalArg("z", dtype=np.float64, shape=(3, 3)),
+             lp.GlobalArg("y", dtype=np.float64, shape=(3, 3), is_output=True)],
+            name="axpy", lang_version=lp.MOST_RECENT_LANGUAGE_VERSION))
+    return call_loopy(_KNL[0], {"x": x, "z": z}, "axpy")["y"]
 
 
 def tag_sets():
@@ -87,6 +120,8 @@ def batch_shared_tagged_nodes(ctx):
     for tg, tset in tags.items():
         for kname in kinds_for(tg):
             for cname, (group, build) in cons.items():
+                if group == "loopy" and not ctx.thorough and kname != "elementwise":
+                    continue        # quick tier: loopy-call consumers on one node kind
                 t = kinds[kname]()
                 if tset:
                     t = t.tagged(tset)
@@ -123,13 +158,16 @@ def batch_shared_tagged_nodes(ctx):
         key = (kname, tg, cname)
         ctl = outcome.get((kname, tg, CONTROL[group]))
         got = outcome[key]
-        if got in ("executor", "wrong-value") or ctl in (None, "executor", "wrong-value"):
+        if got == "wrong-value" or ctl in (None, "wrong-value"):
             continue
+        # (what the C executor cannot run has still been GENERATED by the real target: judged as generating)
+        gen = lambda o: "ok" if o == "executor" else o   # noqa: E731
+        got, ctl = gen(got), gen(ctl)
         if tg == ("none", "none"):
             if got != "ok":
                 ctx.broken.append(f"c07-shared:{kname}:{cname}:untagged-fails:{got[:60]}")
             continue
-        if outcome.get((kname, ("none", "none"), cname)) != "ok":
+        if outcome.get((kname, ("none", "none"), cname)) not in ("ok", "executor"):
             continue
         if got.startswith("error") and got == ctl:
             diagnostics[f"{tg[0]}+{tg[1]}: {got}"] = diagnostics.get(f"{tg[0]}+{tg[1]}: {got}", 0) + 1
